@@ -70,12 +70,18 @@ Definition q_pow (x y : Q) : res (ex Q) :=
   else if Qeq_bool x 0 && (Qnum y =? 0)%Z then Err EZeroPowZero
   else Ok (mkex (Qpower x (Qnum y)) true).
 
-(* Real::pow (through Complex::pow / frac_pow for real arguments, base not
-   negative or exponent an integer) *)
+(* Real::pow reached through Complex::pow (integer exponent) or frac_pow
+   (non-integer exponent, base not negative).  A negative base with a
+   non-integer exponent goes through exp(w ln z) and gives a complex number:
+   outside the model. *)
+Definition real_is_neg (r : real) : bool :=
+  negb (Qeq_bool (real_coef r) 0) && Qle_bool (real_coef r) 0.
+
 Definition real_pow (a b : real) : res (ex real) :=
   match b with
   | Simple y =>
-    if Qeq_bool y 1 then Ok (mkex a true)
+    if negb (q_is_int y) && real_is_neg a then Err EOutOfFuel
+    else if Qeq_bool y 1 then Ok (mkex a true)
     else
       match a with
       | Simple x =>
